@@ -38,10 +38,10 @@ def randomEmail (n : Nat) (d : Draws) : Out Bytes :=
     (if emailNegativeGuard then .ok (randomString n d 1) else .panic)
   else
     let m := n - tld.length
-    let body := randomString m d 1
-    -- buf[m/2] = '@' (index panic when the buffer is empty), then copy(buf[m:], tld)
-    if m / 2 < n then .ok (((body ++ List.replicate tld.length 0).set (m / 2) atSign).take m ++ tld)
-    else .panic
+    -- randomString(buf[:m]); buf[m/2] = '@' (index panic when the buffer is empty); copy(buf[m:], tld)
+    -- (for m = 0 the '@' written at index 0 is overwritten by the TLD)
+    let body := (List.range m).map fun i => if i = m / 2 then atSign else charsetB.getD (d (1 + i) % charsetB.length) 0
+    if m / 2 < n then .ok (body ++ tld) else .panic
 
 /-- the candidate the anonymizer draws for a value of `vlen` bytes of type `ty` -/
 def genToken (ty : TokenType) (vlen : Nat) (d : Draws) : Out Bytes :=
